@@ -148,6 +148,17 @@ macro_rules! maybe_lend {
     }};
 }
 
+thread_local! {
+    /// set while the interpreter resolves a position for KeepLockRef: the leaf-level accessors
+    /// then ask the member guard for a reference to the lock it holds
+    pub static REFLECT: std::cell::Cell<bool> = const { std::cell::Cell::new(false) };
+    /// (address of the lock, it is an RwLock)
+    pub static REFLECTED: std::cell::Cell<Option<(usize, bool)>> = const { std::cell::Cell::new(None) };
+}
+pub fn reflecting() -> bool {
+    REFLECT.with(|a| a.get())
+}
+
 pub fn abusing() -> bool {
     ABUSE.with(|a| a.get())
 }
